@@ -71,7 +71,8 @@ type config struct {
 }
 
 type op struct {
-	kind   string // aa | aip | rel | rbh
+	kind   string // aa | aip | rel | rbh | claim | relaff
+	must   bool   // relaff: mustBeEmpty
 	h, tag int
 	num    int
 	addr   uint32
@@ -84,9 +85,12 @@ type relOpt struct {
 }
 
 type result struct {
-	ips []uint32
-	err string
-	isIPs bool
+	ips     []uint32
+	err     string
+	isIPs   bool
+	isClaim bool
+	claimed bool
+	failed  bool
 }
 
 func ip4(a uint32) net.IP { return net.IPv4(byte(a>>24), byte(a>>16), byte(a>>8), byte(a)).To4() }
@@ -256,6 +260,10 @@ func (o *op) coq() string {
 			ss = append(ss, fmt.Sprintf("(%d%%N, %s)", r.addr, h))
 		}
 		return fmt.Sprintf("OpRelease [%s] %s", strings.Join(ss, "; "), hintlist(o.hint))
+	case "claim":
+		return fmt.Sprintf("OpClaimAffinity %d%%N", o.addr)
+	case "relaff":
+		return fmt.Sprintf("OpReleaseAffinity %d%%N %v", o.addr, o.must)
 	default:
 		return fmt.Sprintf("OpReleaseByHandle %d%%N %s", o.h, hintlist(o.hint))
 	}
@@ -276,12 +284,19 @@ func (o *op) text() string {
 			ss = append(ss, s)
 		}
 		return "ReleaseIPs(" + strings.Join(ss, ",") + ")"
+	case "claim":
+		return fmt.Sprintf("ClaimAffinity(%s)", ip4(o.addr))
+	case "relaff":
+		return fmt.Sprintf("ReleaseAffinity(%s,mustBeEmpty=%v)", ip4(o.addr), o.must)
 	default:
 		return fmt.Sprintf("ReleaseByHandle(h%d)", o.h)
 	}
 }
 
 func (r *result) coq() string {
+	if r.isClaim {
+		return fmt.Sprintf("ResClaim %v %v %s", r.claimed, r.failed, r.err)
+	}
 	if r.isIPs {
 		return fmt.Sprintf("ResIPs %s %s", nlist(r.ips), r.err)
 	}
@@ -324,7 +339,11 @@ func (w *world) blockAddrs(i int) []uint32 {
 func (w *world) genOp() *op {
 	r := w.r
 	nh := 3
-	switch k := r.intn(20); {
+	switch k := r.intn(23); {
+	case k == 20:
+		return &op{kind: "claim", addr: w.cfg.base + uint32(r.intn(w.cfg.nblocks)*w.cfg.bsize)}
+	case k >= 21:
+		return &op{kind: "relaff", addr: w.cfg.base + uint32(r.intn(w.cfg.nblocks)*w.cfg.bsize), must: r.chance(50)}
 	case k < 8:
 		num := 1 + r.intn(3)
 		if r.chance(15) {
@@ -540,6 +559,15 @@ func runCase(seed uint64, conc bool, sc *script) (string, bool, string, map[stri
 						for _, x := range o.rel {
 							delete(w.alloc, x.addr)
 						}
+					}
+				case "claim", "relaff":
+					blockLen := 32 - log2(cfg.bsize)
+					cidr := cnet.IPNet{IPNet: net.IPNet{IP: ip4(o.addr), Mask: net.CIDRMask(blockLen, 32)}}
+					if o.kind == "claim" {
+						cl, fl, err := ic.ClaimAffinity(ctx, cidr, ipam.AffinityConfig{AffinityType: ipam.AffinityTypeHost, Host: hostname})
+						res.isClaim, res.claimed, res.failed, res.err = true, len(cl) > 0, len(fl) > 0, classifyErr(err)
+					} else {
+						res.err = classifyErr(ic.ReleaseAffinity(ctx, cidr, hostname, o.must))
 					}
 				case "rbh":
 					err := ic.ReleaseByHandle(ctx, hs)
